@@ -45,6 +45,35 @@ Qed.
 Lemma integrate_ext g f f' : (forall i, f i = f' i) -> integrate g f = integrate g f'.
 Proof. intros H. unfold integrate. f_equal. now apply integrate_axes_ext. Qed.
 
+(** [DFTProfile::integrate_segments] / [integrate_reduced_segments]: the loop
+    [for (i, &j) in component_index.iter().enumerate() { integral_comp[j] = integral[i] }] over the first [S]
+    segments, starting from zeros: component [c] receives the value of its LAST segment *)
+Fixpoint aggregate (comp : nat -> nat) (vals : nat -> R) (S : nat) (c : nat) : R :=
+  match S with
+  | O => 0
+  | Datatypes.S n => if Nat.eqb (comp n) c then vals n else aggregate comp vals n c
+  end.
+
+Lemma aggregate_spec comp vals S c v :
+  (exists s, (s < S)%nat /\ comp s = c) ->
+  (forall s, (s < S)%nat -> comp s = c -> vals s = v) ->
+  aggregate comp vals S c = v.
+Proof.
+  induction S as [|n IH]; intros [s [Hs Hc]] Hv; [lia|]. cbn.
+  destruct (Nat.eqb_spec (comp n) c) as [E|E].
+  - apply Hv; [lia|exact E].
+  - apply IH.
+    + exists s. split; [|exact Hc]. destruct (Nat.eq_dec s n) as [->|]; [contradiction|lia].
+    + intros s' Hs' Hc'. apply Hv; [lia|exact Hc'].
+Qed.
+
+Lemma aggregate_none comp vals S c : (forall s, (s < S)%nat -> comp s <> c) -> aggregate comp vals S c = 0.
+Proof.
+  induction S as [|n IH]; intros H; cbn; [reflexivity|].
+  destruct (Nat.eqb_spec (comp n) c) as [E|E]; [exfalso; apply (H n); [lia|exact E]|].
+  apply IH. intros s Hs. apply H. lia.
+Qed.
+
 Section UniformEL.
 
   Variable g : grid.
@@ -54,6 +83,13 @@ Section UniformEL.
   Variables (rho_b m : nat -> R).
   Variable nbonds : nat -> nat.
   Variable T : R.
+  (** components: their number, [component_index] (segment -> component) and the bulk partial densities;
+      every segment carries the density of its component, every component has at least one segment *)
+  Variable C : nat.
+  Variable comp : nat -> nat.
+  Variable rho_c : nat -> R.
+  Hypothesis H_rho_seg : forall s, (s < S)%nat -> rho_b s = rho_c (comp s).
+  Hypothesis H_comp_surj : forall c, (c < C)%nat -> exists s, (s < S)%nat /\ comp s = c.
 
   (** the functional *)
   Variable WD : field -> nat -> idx -> R.            (* convolver.weighted_densities, all contributions *)
@@ -108,8 +144,12 @@ Section UniformEL.
          - rsum (fun s => (dfdrho rho s i + m s) * rho s i) S
          + rsum (fun s => rho s i * (/ 2 * INR (nbonds s))) S).
   Definition grand_potential (rho : field) : R := integrate g (omega rho).
-  Definition moles (rho : field) (s : nat) : R := integrate g (rho s).
-  Definition total_moles (rho : field) : R := rsum (moles rho) S.
+  (** [integrate_comp]: one integral per segment; [integrate_segments]: aggregated to components;
+      [moles] = integrate_segments(density), [total_moles] = moles().sum() *)
+  Definition moles_segment (rho : field) (s : nat) : R := integrate g (rho s).
+  Definition integrate_segments (f : field) : nat -> R := aggregate comp (fun s => integrate g (f s)) S.
+  Definition moles (rho : field) (c : nat) : R := integrate_segments rho c.
+  Definition total_moles (rho : field) : R := rsum (moles rho) C.
 
   (** the integral of one with the grid's own weights, and the bulk value of the grand potential density *)
   Definition W : R := integrate g (fun _ => 1).
@@ -172,12 +212,20 @@ Section UniformEL.
     rewrite !integrate_const. ring.
   Qed.
 
-  Theorem uniform_moles s : moles uniform s = rho_b s * W.
-  Proof. unfold moles, W, uniform. rewrite !integrate_const. ring. Qed.
+  Lemma uniform_moles_segment s : moles_segment uniform s = rho_b s * W.
+  Proof. unfold moles_segment, W, uniform. rewrite !integrate_const. ring. Qed.
 
-  Theorem uniform_total_moles : total_moles uniform = rsum rho_b S * W.
+  (** adsorbed amount of every COMPONENT, for any segment -> component map *)
+  Theorem uniform_moles c : (c < C)%nat -> moles uniform c = rho_c c * W.
   Proof.
-    unfold total_moles. rewrite (rsum_ext _ (fun s => rho_b s * W)) by (intros; apply uniform_moles).
+    intros Hc. unfold moles, integrate_segments. apply aggregate_spec; [now apply H_comp_surj|].
+    intros s Hs Hcs. change (moles_segment uniform s = rho_c c * W).
+    rewrite uniform_moles_segment, H_rho_seg by assumption. now rewrite Hcs.
+  Qed.
+
+  Theorem uniform_total_moles : total_moles uniform = rsum rho_c C * W.
+  Proof.
+    unfold total_moles. rewrite (rsum_ext _ (fun c => rho_c c * W)) by (intros; now apply uniform_moles).
     apply rsum_scal_r.
   Qed.
 
@@ -255,7 +303,7 @@ Section UniformEL.
     Hypothesis H_omega : omega_bulk = - p.
     (** the system volume as reported by [DFTProfile::volume], with a given prefactor table of [Axis::volume] *)
     Variable V : R.
-    Definition rho_total : R := rsum rho_b S.
+    Definition rho_total : R := rsum rho_c C.
 
     (** pore.rs:124 interfacial tension, solvation_profile.rs:39 solvation free energy *)
     Definition excess_grand_potential : R := grand_potential uniform + p * V.
